@@ -1,1 +1,467 @@
-//! C10 harnesses (see /verif/tools/HARNESS_GUIDE.md).
+//! C10 — kernels never index out of bounds and initialise every output slot exactly once.
+//!
+//! Instruments:
+//!  * `Logged<T, N>`: an output container (implements `GetLen`, `TIter`, `Vec1View`, `Vec1`) whose `Uninit` /
+//!    `UninitRefMut` types keep a write log `written: [u8; N]`. `uset(i, v)` records an out-of-range index and a
+//!    second write instead of performing them; `assume_init` (and the collecting constructors) hand the log on to
+//!    the finished container. The harness then asserts, with a message naming the entry point:
+//!    "output index in bounds", "slot written once", "every output slot written before assume_init".
+//!  * input `Vec<T>` / `Array1<T>`: Kani's pointer checks see every `get_unchecked` / `uget` of the fast paths;
+//!  * input `util::DefView`: the default driver bodies run and `uget` / `uslice` are bounds-checked, so an
+//!    index >= len handed to an unchecked accessor is a panic.
+//!
+//! Layer 1 (`c10_drv_*`, `c10_w0_*`, `c10_short2_*`, `c10_panic_*`): the six rolling drivers with an arbitrary
+//! callback, returned path (`O = Logged`) and caller-buffer path (`Some(out)` over a `Logged` buffer).
+//! Layer 2 (`c10_cmp_*`, `c10_num_*`, `c10_map_*`, `c10_empty_*`): the kernels that index the input themselves.
+//!
+//! Degenerate regions where the pinned tree *panics cleanly* are acceptable for C10 ("either a fully defined
+//! result or a clean panic"); they are excluded from the main harnesses by `kani::assume` and witnessed by
+//! `#[kani::should_panic]` harnesses (`c10_panic_*`, `c10_vrank_empty`) that use plain `Vec` outputs, so the only
+//! panic they can see is tevec's own. Genuine defects (window 0 on the `_to` bodies / fast paths, a shorter second
+//! series) are isolated in `c10_w0_*` / `c10_short2_*`.
+use std::collections::VecDeque;
+use std::mem::MaybeUninit;
+use std::sync::Arc;
+
+use ndarray::{Array1, ArrayView1, s};
+use tea_agg::{QuantileMethod, VecAggValidExt};
+use tea_core::prelude::*;
+use tea_map::MapValidVec;
+use tea_rolling::{RollingValidCmp, RollingValidNorm, RollingValidRegBinary};
+
+use crate::util::*;
+
+// ---------------------------------------------------------------------------------------------
+// Logged output container
+// ---------------------------------------------------------------------------------------------
+
+#[derive(Clone, Copy)]
+pub struct WLog<const N: usize> {
+    /// number of writes per slot (saturating)
+    pub written: [u8; N],
+    /// some write used an index >= len
+    pub oob: bool,
+    /// some slot was written a second time
+    pub twice: bool,
+    /// the length the buffer was created with (`uninit(len)`, or the number of collected items)
+    pub len_req: usize,
+}
+
+impl<const N: usize> WLog<N> {
+    pub fn new(len: usize) -> Self {
+        WLog { written: [0; N], oob: false, twice: false, len_req: len }
+    }
+
+    /// records a write to `idx`; true when the value may be stored
+    pub fn note(&mut self, idx: usize) -> bool {
+        if idx >= N || idx >= self.len_req {
+            self.oob = true;
+            false
+        } else {
+            if self.written[idx] != 0 {
+                self.twice = true;
+            }
+            if self.written[idx] < 255 {
+                self.written[idx] += 1;
+            }
+            true
+        }
+    }
+
+    /// (has the input length, every index in bounds, no slot written twice, every slot written)
+    pub fn verdict(&self) -> (bool, bool, bool, bool) {
+        let mut all = true;
+        let mut i = 0;
+        while i < N {
+            if i < self.len_req && self.written[i] == 0 {
+                all = false;
+            }
+            i += 1;
+        }
+        (self.len_req == N, !self.oob, !self.twice, all)
+    }
+}
+
+pub struct Logged<T, const N: usize> {
+    pub data: [T; N],
+    pub log: WLog<N>,
+}
+
+pub struct LoggedUninit<T, const N: usize> {
+    pub data: [T; N],
+    pub log: WLog<N>,
+}
+
+pub trait OutElem: Copy + Default {}
+impl<T: Copy + Default> OutElem for T {}
+
+impl<T, const N: usize> GetLen for Logged<T, N> {
+    fn len(&self) -> usize {
+        self.log.len_req
+    }
+}
+
+impl<T, const N: usize> GetLen for LoggedUninit<T, N> {
+    fn len(&self) -> usize {
+        self.log.len_req
+    }
+}
+
+impl<T: OutElem, const N: usize> TIter<T> for Logged<T, N> {
+    fn titer(&self) -> impl TIterator<Item = T> + '_ {
+        self.data.iter().cloned()
+    }
+}
+
+impl<T: OutElem, const N: usize> Vec1View<T> for Logged<T, N> {
+    type SliceOutput<'a>
+        = &'a [T]
+    where
+        Self: 'a,
+        T: 'a;
+
+    fn get_backend_name(&self) -> &'static str {
+        "logged"
+    }
+
+    unsafe fn uget(&self, index: usize) -> T {
+        self.data[index]
+    }
+}
+
+impl<T: OutElem, const N: usize> Vec1<T> for Logged<T, N> {
+    type Uninit = LoggedUninit<T, N>;
+    type UninitRefMut<'a>
+        = &'a mut LoggedUninit<T, N>
+    where
+        T: 'a;
+
+    /// collecting constructor (default driver bodies, `full`, `empty`): item k goes to slot k
+    fn collect_from_iter<I: Iterator<Item = T>>(iter: I) -> Self {
+        let mut data = [T::default(); N];
+        let mut log = WLog::<N>::new(N);
+        let mut k = 0usize;
+        for v in iter {
+            if log.note(k) {
+                data[k] = v;
+            }
+            k += 1;
+        }
+        log.len_req = k;
+        Logged { data, log }
+    }
+
+    fn uninit(len: usize) -> Self::Uninit {
+        LoggedUninit { data: [T::default(); N], log: WLog::new(len) }
+    }
+
+    fn uninit_ref_mut(uninit_vec: &mut Self::Uninit) -> Self::UninitRefMut<'_> {
+        uninit_vec
+    }
+}
+
+impl<T: OutElem, const N: usize> UninitVec<T> for LoggedUninit<T, N> {
+    type Vec = Logged<T, N>;
+
+    unsafe fn assume_init(self) -> Self::Vec {
+        Logged { data: self.data, log: self.log }
+    }
+
+    unsafe fn uset(&mut self, idx: usize, v: T) {
+        if self.log.note(idx) {
+            self.data[idx] = v;
+        }
+    }
+}
+
+impl<T: OutElem, const N: usize> UninitRefMut<T> for &mut LoggedUninit<T, N> {
+    unsafe fn uset(&mut self, idx: usize, v: T) {
+        if self.log.note(idx) {
+            self.data[idx] = v;
+        }
+    }
+}
+
+/// the three log assertions (plus the length) with caller-chosen messages: distinct failure keys per entry point
+macro_rules! verdict {
+    ($o:expr, $len:literal, $ib:literal, $once:literal, $all:literal) => {{
+        let (len_ok, ib, once, all) = $o.log.verdict();
+        assert!(len_ok, $len);
+        assert!(ib, $ib);
+        assert!(once, $once);
+        assert!(all, $all);
+    }};
+}
+
+type L<const N: usize> = Logged<u8, N>;
+
+fn out_buf<const N: usize>() -> LoggedUninit<u8, N> {
+    <L<N> as Vec1<u8>>::uninit(N)
+}
+
+/// reads every element of a window object (so that Kani's pointer checks see the slice handed out by the driver)
+pub fn touch<T: Copy, W: Win<T>>(s: &W) -> usize {
+    let n = s.wlen();
+    let mut j = 0;
+    while j < n {
+        let _ = s.wget(j);
+        j += 1;
+    }
+    n
+}
+
+// ---------------------------------------------------------------------------------------------
+// Layer 1: drivers with an arbitrary callback. One function per (driver, path): the messages name them.
+// ---------------------------------------------------------------------------------------------
+
+pub fn apply_ret<T: Clone, V: Vec1View<T> + ?Sized, const N: usize>(v: &V, w: usize) {
+    let o: L<N> = v.rolling_apply(w, |_rm, _x| kani::any::<u8>(), None).unwrap();
+    verdict!(o, "rolling_apply returned: output has the input length", "rolling_apply returned: output index in bounds",
+             "rolling_apply returned: slot written once", "rolling_apply returned: every output slot written before assume_init");
+}
+
+pub fn apply_out<T: Clone, V: Vec1View<T> + ?Sized, const N: usize>(v: &V, w: usize) {
+    let mut buf = out_buf::<N>();
+    let r = v.rolling_apply::<L<N>, _, _>(w, |_rm, _x| kani::any::<u8>(), Some(&mut buf));
+    assert!(r.is_none(), "rolling_apply out: nothing returned");
+    let o = unsafe { buf.assume_init() };
+    verdict!(o, "rolling_apply out: buffer keeps its length", "rolling_apply out: output index in bounds",
+             "rolling_apply out: slot written once", "rolling_apply out: every output slot written before assume_init");
+}
+
+pub fn idx_ret<T: Clone, V: Vec1View<T> + ?Sized, const N: usize>(v: &V, w: usize) {
+    let o: L<N> = v.rolling_apply_idx(w, |_s, _e, _x| kani::any::<u8>(), None).unwrap();
+    verdict!(o, "rolling_apply_idx returned: output has the input length", "rolling_apply_idx returned: output index in bounds",
+             "rolling_apply_idx returned: slot written once", "rolling_apply_idx returned: every output slot written before assume_init");
+}
+
+pub fn idx_out<T: Clone, V: Vec1View<T> + ?Sized, const N: usize>(v: &V, w: usize) {
+    let mut buf = out_buf::<N>();
+    let r = v.rolling_apply_idx::<L<N>, _, _>(w, |_s, _e, _x| kani::any::<u8>(), Some(&mut buf));
+    assert!(r.is_none(), "rolling_apply_idx out: nothing returned");
+    let o = unsafe { buf.assume_init() };
+    verdict!(o, "rolling_apply_idx out: buffer keeps its length", "rolling_apply_idx out: output index in bounds",
+             "rolling_apply_idx out: slot written once", "rolling_apply_idx out: every output slot written before assume_init");
+}
+
+pub fn apply2_ret<T: Clone, V: Vec1View<T> + ?Sized, V2: Vec1View<T>, const N: usize>(v: &V, v2: &V2, w: usize) {
+    let o: L<N> = v.rolling2_apply(v2, w, |_rm, _x| kani::any::<u8>(), None).unwrap();
+    verdict!(o, "rolling2_apply returned: output has the input length", "rolling2_apply returned: output index in bounds",
+             "rolling2_apply returned: slot written once", "rolling2_apply returned: every output slot written before assume_init");
+}
+
+pub fn apply2_out<T: Clone, V: Vec1View<T> + ?Sized, V2: Vec1View<T>, const N: usize>(v: &V, v2: &V2, w: usize) {
+    let mut buf = out_buf::<N>();
+    let r = v.rolling2_apply::<L<N>, _, _, _, _>(v2, w, |_rm, _x| kani::any::<u8>(), Some(&mut buf));
+    assert!(r.is_none(), "rolling2_apply out: nothing returned");
+    let o = unsafe { buf.assume_init() };
+    verdict!(o, "rolling2_apply out: buffer keeps its length", "rolling2_apply out: output index in bounds",
+             "rolling2_apply out: slot written once", "rolling2_apply out: every output slot written before assume_init");
+}
+
+pub fn idx2_ret<T: Clone, V: Vec1View<T> + ?Sized, V2: Vec1View<T>, const N: usize>(v: &V, v2: &V2, w: usize) {
+    let o: L<N> = v.rolling2_apply_idx(v2, w, |_s, _e, _x| kani::any::<u8>(), None).unwrap();
+    verdict!(o, "rolling2_apply_idx returned: output has the input length", "rolling2_apply_idx returned: output index in bounds",
+             "rolling2_apply_idx returned: slot written once", "rolling2_apply_idx returned: every output slot written before assume_init");
+}
+
+pub fn idx2_out<T: Clone, V: Vec1View<T> + ?Sized, V2: Vec1View<T>, const N: usize>(v: &V, v2: &V2, w: usize) {
+    let mut buf = out_buf::<N>();
+    let r = v.rolling2_apply_idx::<L<N>, _, _, _, _>(v2, w, |_s, _e, _x| kani::any::<u8>(), Some(&mut buf));
+    assert!(r.is_none(), "rolling2_apply_idx out: nothing returned");
+    let o = unsafe { buf.assume_init() };
+    verdict!(o, "rolling2_apply_idx out: buffer keeps its length", "rolling2_apply_idx out: output index in bounds",
+             "rolling2_apply_idx out: slot written once", "rolling2_apply_idx out: every output slot written before assume_init");
+}
+
+// slice forms: macros, because the window type is a GAT of the backend
+macro_rules! custom_ret {
+    ($v:expr, $w:expr, $N:expr) => {{
+        let o: L<$N> = $v.rolling_custom($w, |s| { touch(&s); kani::any::<u8>() }, None).unwrap();
+        verdict!(o, "rolling_custom returned: output has the input length", "rolling_custom returned: output index in bounds",
+                 "rolling_custom returned: slot written once", "rolling_custom returned: every output slot written before assume_init");
+    }};
+}
+macro_rules! custom_out {
+    ($v:expr, $w:expr, $N:expr) => {{
+        let mut buf = out_buf::<$N>();
+        let r = $v.rolling_custom::<L<$N>, _, _>($w, |s| { touch(&s); kani::any::<u8>() }, Some(&mut buf));
+        assert!(r.is_none(), "rolling_custom out: nothing returned");
+        let o = unsafe { buf.assume_init() };
+        verdict!(o, "rolling_custom out: buffer keeps its length", "rolling_custom out: output index in bounds",
+                 "rolling_custom out: slot written once", "rolling_custom out: every output slot written before assume_init");
+    }};
+}
+macro_rules! custom2_ret {
+    ($v:expr, $v2:expr, $w:expr, $N:expr) => {{
+        let o: L<$N> = $v.rolling2_custom($v2, $w, |s, t| { touch(&s); touch(&t); kani::any::<u8>() }, None).unwrap();
+        verdict!(o, "rolling2_custom returned: output has the input length", "rolling2_custom returned: output index in bounds",
+                 "rolling2_custom returned: slot written once", "rolling2_custom returned: every output slot written before assume_init");
+    }};
+}
+macro_rules! custom2_out {
+    ($v:expr, $v2:expr, $w:expr, $N:expr) => {{
+        let mut buf = out_buf::<$N>();
+        let r = $v.rolling2_custom::<L<$N>, _, _, _, _>($v2, $w, |s, t| { touch(&s); touch(&t); kani::any::<u8>() }, Some(&mut buf));
+        assert!(r.is_none(), "rolling2_custom out: nothing returned");
+        let o = unsafe { buf.assume_init() };
+        verdict!(o, "rolling2_custom out: buffer keeps its length", "rolling2_custom out: output index in bounds",
+                 "rolling2_custom out: slot written once", "rolling2_custom out: every output slot written before assume_init");
+    }};
+}
+
+/// window in lo..=N+3
+pub fn any_window<const N: usize>(lo: usize) -> usize {
+    let w: usize = kani::any();
+    kani::assume(w >= lo && w <= N + 3);
+    w
+}
+
+/// min_periods: None or Some(0..=N+3)
+pub fn any_mp<const N: usize>() -> Option<usize> {
+    let m: usize = kani::any();
+    kani::assume(m <= N + 3);
+    if kani::any() { Some(m) } else { None }
+}
+
+// ---------------------------------------------------------------------------------------------
+// Layer 2: kernels that index the input themselves. Output container is `Logged<f64, N>` so that the write log
+// is checked on the way; V is Vec (pointer checks) or DefView (checked uget).
+// ---------------------------------------------------------------------------------------------
+
+type LF<const N: usize> = Logged<f64, N>;
+
+macro_rules! kernel_verdict {
+    ($o:expr, $len:literal, $all:literal) => {{
+        let (len_ok, ib, once, all) = $o.log.verdict();
+        assert!(len_ok, $len);
+        assert!(ib, "kernel output index in bounds");
+        assert!(once, "kernel output slot written once");
+        assert!(all, $all);
+    }};
+}
+
+pub fn k_vmin<V: Vec1View<Option<i32>>, const N: usize>(v: &V, w: usize, mp: Option<usize>) {
+    let o: LF<N> = v.ts_vmin(w, mp);
+    kernel_verdict!(o, "ts_vmin: output length == N", "ts_vmin: every output slot written");
+}
+pub fn k_vmax<V: Vec1View<Option<i32>>, const N: usize>(v: &V, w: usize, mp: Option<usize>) {
+    let o: LF<N> = v.ts_vmax(w, mp);
+    kernel_verdict!(o, "ts_vmax: output length == N", "ts_vmax: every output slot written");
+}
+pub fn k_vargmin<V: Vec1View<Option<i32>>, const N: usize>(v: &V, w: usize, mp: Option<usize>) {
+    let o: LF<N> = v.ts_vargmin(w, mp);
+    kernel_verdict!(o, "ts_vargmin: output length == N", "ts_vargmin: every output slot written");
+}
+pub fn k_vargmax<V: Vec1View<Option<i32>>, const N: usize>(v: &V, w: usize, mp: Option<usize>) {
+    let o: LF<N> = v.ts_vargmax(w, mp);
+    kernel_verdict!(o, "ts_vargmax: output length == N", "ts_vargmax: every output slot written");
+}
+pub fn k_tsrank<V: Vec1View<Option<i32>>, const N: usize>(v: &V, w: usize, mp: Option<usize>) {
+    let o: LF<N> = v.ts_vrank(w, mp, kani::any(), kani::any());
+    kernel_verdict!(o, "ts_vrank: output length == N", "ts_vrank: every output slot written");
+}
+pub fn k_minmaxnorm<V: Vec1View<Option<i32>>, const N: usize>(v: &V, w: usize, mp: Option<usize>) {
+    let o: LF<N> = v.ts_vminmaxnorm(w, mp);
+    kernel_verdict!(o, "ts_vminmaxnorm: output length == N", "ts_vminmaxnorm: every output slot written");
+}
+pub fn k_resid_mean<V: Vec1View<f64>, V2: Vec1View<f64>, const N: usize>(v: &V, v2: &V2, w: usize, mp: Option<usize>) {
+    let o: LF<N> = v.ts_vregx_resid_mean(v2, w, mp);
+    kernel_verdict!(o, "ts_vregx_resid_mean: output length == N", "ts_vregx_resid_mean: every output slot written");
+}
+pub fn k_resid_std<V: Vec1View<f64>, V2: Vec1View<f64>, const N: usize>(v: &V, v2: &V2, w: usize, mp: Option<usize>) {
+    let o: LF<N> = v.ts_vregx_resid_std(v2, w, mp);
+    kernel_verdict!(o, "ts_vregx_resid_std: output length == N", "ts_vregx_resid_std: every output slot written");
+}
+pub fn k_resid_skew<V: Vec1View<f64>, V2: Vec1View<f64>, const N: usize>(v: &V, v2: &V2, w: usize, mp: Option<usize>) {
+    let o: LF<N> = v.ts_vregx_resid_skew(v2, w, mp);
+    kernel_verdict!(o, "ts_vregx_resid_skew: output length == N", "ts_vregx_resid_skew: every output slot written");
+}
+pub fn k_vrank<V: Vec1View<Option<i32>>, const N: usize>(v: &V) {
+    let o: LF<N> = v.vrank(kani::any(), kani::any());
+    kernel_verdict!(o, "vrank: output length == N", "vrank: every output slot written");
+}
+/// vpartition / varg_partition: k in 0..=N+1; the iterator is consumed by plain iteration (its length contract is
+/// C09 / C12 business), and every index yielded by varg_partition is -1 or < N.
+pub fn k_partition<V: Vec1View<Option<i32>>, const N: usize>(v: &V) {
+    let k: usize = kani::any();
+    kani::assume(k <= N + 1);
+    let (sort, rev): (bool, bool) = (kani::any(), kani::any());
+    let mut cnt = 0usize;
+    for _e in v.vpartition(k, sort, rev) {
+        cnt += 1;
+    }
+    assert!(cnt <= k + 1, "vpartition yields at most k+1 entries");
+    let mut cnt = 0usize;
+    for i in v.varg_partition(k, sort, rev) {
+        assert!(i == -1 || (i >= 0 && (i as usize) < N), "varg_partition yields -1 or an index below len");
+        cnt += 1;
+    }
+    assert!(cnt <= k + 1, "varg_partition yields at most k+1 entries");
+}
+pub fn k_quantile<V: Vec1View<Option<i32>>, const N: usize>(v: &V) {
+    let qi: u8 = kani::any();
+    kani::assume(qi < 6);
+    let q = [0.0, 0.25, 0.5, 0.75, 1.0, 1.5][qi as usize];
+    let m: u8 = kani::any();
+    kani::assume(m < 4);
+    let method = match m {
+        0 => QuantileMethod::Linear,
+        1 => QuantileMethod::Lower,
+        2 => QuantileMethod::Higher,
+        _ => QuantileMethod::MidPoint,
+    };
+    let r = v.vquantile(q, method);
+    let is_err = r.is_err();
+    std::mem::forget(r); // no TError drop glue under CBMC
+    assert!(is_err == (qi == 5), "vquantile errs exactly for q outside 0..=1");
+}
+
+/// Option<i32> data: unconstrained null mask, values in -3..=3 when `small` (ties; no i32 overflow in differences)
+pub fn opt_data<const N: usize>(small: bool) -> [Option<i32>; N] {
+    let x: [Option<i32>; N] = kani::any();
+    if small {
+        let mut i = 0;
+        while i < N {
+            if let Some(v) = x[i] {
+                kani::assume(v >= -3 && v <= 3);
+            }
+            i += 1;
+        }
+    }
+    x
+}
+
+/// f64 data from small integers with a symbolic NaN mask
+pub fn f64_data<const N: usize>() -> [f64; N] {
+    let mut x = [0.0; N];
+    let mut i = 0;
+    while i < N {
+        x[i] = small_f64_or_nan(-3, 3);
+        i += 1;
+    }
+    x
+}
+
+pub fn cmp_all<V: Vec1View<Option<i32>>, const N: usize>(v: &V, wlo: usize) {
+    let (w, mp) = (any_window::<N>(wlo), any_mp::<N>());
+    k_vmin::<V, N>(v, w, mp);
+    k_vmax::<V, N>(v, w, mp);
+    k_vargmin::<V, N>(v, w, mp);
+    k_vargmax::<V, N>(v, w, mp);
+}
+
+pub fn map_all<V: Vec1View<Option<i32>>, const N: usize>(v: &V) {
+    k_vrank::<V, N>(v);
+    k_partition::<V, N>(v);
+    k_quantile::<V, N>(v);
+}
+
+pub fn num_all<V: Vec1View<f64>, V2: Vec1View<f64>, const N: usize>(a: &V, b: &V2, wlo: usize) {
+    let (w, mp) = (any_window::<N>(wlo), any_mp::<N>());
+    k_resid_mean::<V, V2, N>(a, b, w, mp);
+    k_resid_std::<V, V2, N>(a, b, w, mp);
+    k_resid_skew::<V, V2, N>(a, b, w, mp);
+}
+
+include!("c10_gen.rs");
